@@ -92,7 +92,7 @@ func init() {
 		DesignRef: "DESIGN.md section 3, C16",
 	}
 	metas["C17"] = propMeta{
-		Text:      "Claims only the clause 'never emits a malformed document for values it cannot represent' plus validation-before-decoding: (enc-write) every encoder the type dispatch can return writes to the encode state or aborts on every feasible path; (float-finite) the float encoder excludes +Inf, -Inf and NaN (by IsInf/IsNaN or equivalent comparisons) before formatting; (unmarshal-valid) decoding calls are on the nil-error side of checkValid; (marshal-recover) the entry recovers exactly jsonError. Byte-for-byte agreement with encoding/json, escaping, number formatting, the acceptance set of Unmarshal, Indent/Compact are differential by nature and NOT decided. 'other'.",
+		Text:      "Claims only the clause 'never emits a malformed document for values it cannot represent' plus validation-before-decoding: (enc-write) every encoder the type dispatch can return writes to the encode state or aborts on every feasible path; (float-finite) the float encoder excludes +Inf, -Inf and NaN (by IsInf/IsNaN or equivalent comparisons) before formatting; (unmarshal-valid) decoding calls are on the nil-error side of checkValid; (marshal-recover) the entry recovers exactly jsonError. Agreement with encoding/json is decided for what is visible in the shape of the code: (scanner-agree) every state function of the validating scanner has, per byte value, the effects and result of its namesake in GOROOT's encoding/json (abstract interpretation of both sources over byte sets), (table-agree) the character class tables are equal entry by entry, (escape-agree) the string writers append, for each ASCII byte, the bytes appendString appends, (enc-sign, strconv-err, json-depth, array-nonnil, json-value-nonnil, marshaler-validated) single clauses on numbers, depth, empty arrays, null and Marshalers. Byte-for-byte agreement beyond that (invalid UTF-8, U+2028/9, float formatting, key order), the values Unmarshal builds, Indent/Compact are differential by nature and NOT decided. 'other'.",
 		Note:      trustedNote,
 		Technique: "static analysis: must-call on all feasible paths, dominating-guard facts, recover-barrier classification",
 		DesignRef: "DESIGN.md section 3, C17",
